@@ -57,6 +57,29 @@ class RpmVersion(NamedTuple):
     def __ge__(self, other):
         return compare_rpm_versions(self, other) >= 0
 
+    def __ne__(self, other):
+        return compare_rpm_versions(self, other) != 0
+
+    def __hash__(self):
+        # versions that compare equal have the same epoch and the same segments
+        return hash((self.epoch, get_segments(self.version), get_segments(self.release)))
+
+
+def get_segments(s):
+    """
+    Return a tuple of the significant segments of a version or release string
+    ``s`` as compared by rpm: digits runs as integers, letters runs, "~" and "^".
+    Any other character is only a separator.
+
+    For example::
+    >>> get_segments("1.05~rc1")
+    (1, 5, '~', 'rc', 1)
+    >>> get_segments("1_5~rc.1") == get_segments("1.05~rc1")
+    True
+    """
+    segments = re.findall(r"[0-9]+|[a-zA-Z]+|~|\^", s)
+    return tuple(int(seg) if seg.isdigit() else seg for seg in segments)
+
 
 def from_evr(s):
     """
